@@ -125,6 +125,10 @@ func lightProjection(v *simapi.View, s *sim.Scenario, all []*sim.Scenario) map[s
 			conds = append(conds, fmt.Sprintf("%s=%s/%s", simapi.Str(c, "type"), simapi.Str(c, "status"), simapi.Str(c, "reason")))
 		}
 		sort.Strings(conds)
+		if simapi.Str(ro, "status.phase") == "Disabled" {
+			// the conditions a disabled Rollout keeps record where the user's action happened to catch the release
+			conds = nil
+		}
 		out["rollout"] = map[string]interface{}{"phase": simapi.Str(ro, "status.phase"), "conditions": conds}
 	}
 	if wl := v.GetKey(s.WorkloadKey()); wl != nil {
@@ -148,6 +152,54 @@ func lightProjection(v *simapi.View, s *sim.Scenario, all []*sim.Scenario) map[s
 		out["stableSelector"] = simapi.Path(svc, "spec.selector")
 	}
 	return out
+}
+
+// familyOf is the property and clause of a fingerprint ("c01:exposure-raised-during-supersession"), without the
+// variant suffixes.
+func familyOf(fp string) string {
+	parts := strings.SplitN(fp, ":", 3)
+	if len(parts) < 2 {
+		return fp
+	}
+	return parts[0] + ":" + parts[1]
+}
+
+// sameEndOfRelease: the conditions a Rollout is left with after a user's rollback / disabling record whether that action
+// caught the release before or after its end, which is the schedule's doing (the same queued action lands a few
+// reconciles earlier or later), not a neighbour's. The condition details are compared only when the release succeeded in
+// both runs; the phase, the workload, the objects and the routes are always compared.
+func sameEndOfRelease(a, b map[string]interface{}) (map[string]interface{}, map[string]interface{}) {
+	succeeded := func(m map[string]interface{}) bool {
+		ro, _ := m["rollout"].(map[string]interface{})
+		if ro == nil {
+			return false
+		}
+		if s, ok := ro["succeeded"].(string); ok {
+			return s == "True"
+		}
+		if l, ok := ro["conditions"].([]string); ok {
+			for _, c := range l {
+				if strings.HasPrefix(c, "Succeeded=True") {
+					return true
+				}
+			}
+		}
+		return false
+	}
+	if succeeded(a) && succeeded(b) {
+		return a, b
+	}
+	strip := func(m map[string]interface{}) map[string]interface{} {
+		out := map[string]interface{}{}
+		for k, v := range m {
+			out[k] = v
+		}
+		if ro, _ := m["rollout"].(map[string]interface{}); ro != nil {
+			out["rollout"] = map[string]interface{}{"phase": ro["phase"]}
+		}
+		return out
+	}
+	return strip(a), strip(b)
 }
 
 func userActionSet(l []string) string {
@@ -197,6 +249,10 @@ func multiCase(env *core.Env, idx int, concurrent, timed bool) *core.CaseResult 
 	}
 	seed := rng.Int63()
 	known := core.KnownFingerprints()
+	knownFamily := map[string]bool{}
+	for fp := range known {
+		knownFamily[familyOf(fp)] = true
+	}
 
 	// each tenant alone
 	solos := make([]*soloResult, len(tenants))
@@ -361,6 +417,13 @@ func multiCase(env *core.Env, idx int, concurrent, timed bool) *core.CaseResult 
 			if strings.HasPrefix(v.Fingerprint, "c07:") && !r.Terminal {
 				continue // reported below as not-terminal
 			}
+			if knownFamily[familyOf(v.Fingerprint)] {
+				// a variant of a recorded finding of another property: whether and in which variant those show depends on
+				// the schedule (the solo run of this very tenant shows them under some scheduler seeds and not under
+				// others), so their appearing only next to others says nothing about isolation
+				res.AddSet("known_finding_family_seen_together_only", v.Fingerprint)
+				continue
+			}
 			res.Violate("c19:monitor-silent-alone-fires-together:"+v.Fingerprint, fmt.Sprintf("tenant %s/%s: a monitor that is silent when the rollout runs alone fired when it ran next to others: %s", s.NS, s.Name, v.Msg), detail(v.Detail))
 		}
 		if so.terminal && !r.Terminal {
@@ -380,6 +443,7 @@ func multiCase(env *core.Env, idx int, concurrent, timed bool) *core.CaseResult 
 				want, got = so.light, lightProjection(snap, s, clones)
 				res.Count("tenant_final_states_compared_same_namespace", 1)
 			}
+			want, got = sameEndOfRelease(want, got)
 			if d := gen.FirstDiff("", want, got); d != "" {
 				res.Violate(fmt.Sprintf("c19:final-state-differs-from-solo:%s:%s/%s", normPath(d), s.Kind, s.Style), fmt.Sprintf("tenant %s/%s ends in a different state next to the others than alone, at %s", s.NS, s.Name, d), detail(gen.NF{"alone": want, "together": got}))
 			}
